@@ -185,9 +185,9 @@ Proof.
         rewrite !skipn_app_exact by (symmetry; apply enc_rcd_length; assumption).
         rewrite (encode_cons (fst r, imerge (snd r) (snd rb))). unfold enc_rcd at 1. cbn [fst snd].
         rewrite imerge_length, Nat2Z.inj_add.
-        rewrite <- Nat2Z.inj_add, Nat2Z.id.
+        rewrite <- Nat2Z.inj_add, !Nat2Z.id.
         rewrite (merge_froms_encode n) by (try assumption; lia).
-        rewrite Nat2Z.inj_add. cbn [app]. f_equal. f_equal. f_equal.
+        cbn [app]. f_equal. f_equal. f_equal.
         apply IH; try assumption. lia.
 Qed.
 
